@@ -162,6 +162,13 @@ func collectCands(fs []*Term, cands map[string]map[*Term]bool) {
 			return
 		}
 		u := unmark(m)
+		if strings.HasSuffix(m.Name, "^") {
+			// cand(e): always a candidate
+			if ctx == "*" {
+				addCand(cands, strings.TrimSuffix(m.Name, "^")+"|sk", u)
+			}
+			return
+		}
 		addCand(cands, m.Name+"|"+ctx, u)
 		if u.Op == "sign_extend" {
 			addCand(cands, fmt.Sprintf("s%d|%s", u.Args[0].S.W, ctx), unmark(u.Args[0]))
